@@ -72,3 +72,6 @@ func (f *Face) VerifGvarScalars(gid GID) []VerifTuple {
 	}
 	return out
 }
+
+// VerifCFF2 returns the parsed 'CFF2' table, or nil.
+func (f *Font) VerifCFF2() *cff.CFF2 { return f.cff2 }
